@@ -549,10 +549,8 @@ def export_obj_str(surface, **kwargs):
         # Collect faces (1-indexed)
         for t in triangles:
             vl = t.data
-            temp = "f " + \
-                   str(vl[0] + 1 + vertex_offset) + " " + \
-                   str(vl[1] + 1 + vertex_offset) + " " + \
-                   str(vl[2] + 1 + vertex_offset) + "\n"
+            # A face can be a triangle or a quad depending on the tessellation component
+            temp = "f " + " ".join([str(idx + 1 + vertex_offset) for idx in vl]) + "\n"
             str_f.append(temp)
 
         # Update vertex offset
@@ -627,7 +625,14 @@ def export_stl_str(surface, **kwargs):
         srf.tessellate(vertex_spacing=vertex_spacing)
         triangles = srf.tessellator.faces
 
-        triangles_list += triangles
+        # STL is a triangle format; the faces with more vertices (quads) are split into triangles
+        for face in triangles:
+            fvs = face.vertices
+            if len(fvs) == 3:
+                triangles_list.append(face)
+            else:
+                for k in range(1, len(fvs) - 1):
+                    triangles_list.append(elements.Triangle(fvs[0], fvs[k], fvs[k + 1]))
 
     # Write triangle list to ASCII or  binary STL file
     if binary:
@@ -719,10 +724,8 @@ def export_off_str(surface, **kwargs):
         # Collect faces (zero-indexed)
         for t in triangles:
             vl = t.data
-            line = "3 " + \
-                   str(vl[0] + vertex_offset) + " " + \
-                   str(vl[1] + vertex_offset) + " " + \
-                   str(vl[2] + vertex_offset) + "\n"
+            # A face can be a triangle or a quad depending on the tessellation component
+            line = str(len(vl)) + " " + " ".join([str(idx + vertex_offset) for idx in vl]) + "\n"
             str_f.append(line)
 
         # Update vertex offset
